@@ -26,7 +26,26 @@ def build(profile='dev'):
     return binary, ''
 
 
+def job_tag_documents(case):
+    """writer_tour documents for a job_tag case: one job with two tagged places, the tour uses place `used`."""
+    import datetime
+    rfc = lambda t: datetime.datetime.fromtimestamp(int(t), datetime.timezone.utc).strftime('%Y-%m-%dT%H:%M:%SZ')
+    far = rfc(30 * 86400)
+    locs = sorted({p['loc'] for p in case['places']})
+    index = {l: i + 1 for i, l in enumerate(locs)}
+    n = len(locs) + 1
+    places = [{'location': {'index': index[p['loc']]}, 'duration': 0.0, 'times': [[rfc(p['start']), rfc(p['end'])]], 'tag': 'ab'[i]} for i, p in enumerate(case['places'])]
+    problem = {'plan': {'jobs': [{'id': 'job1', 'services': [{'places': places}]}]},
+               'fleet': {'vehicles': [{'typeId': 'type1', 'vehicleIds': ['v1'], 'profile': {'matrix': 'car'}, 'costs': {'fixed': 1.0, 'distance': 1.0, 'time': 1.0},
+                                       'shifts': [{'start': {'earliest': rfc(0), 'location': {'index': 0}}, 'end': {'latest': far, 'location': {'index': 0}}}], 'capacity': [10]}],
+                         'profiles': [{'name': 'car'}]}}
+    return dict(case, kind='writer_tour', problem=problem, matrix={'profile': 'car', 'travelTimes': [0] * (n * n), 'distances': [0] * (n * n)}, order=['job1'],
+                place_index={'job1': case['used']})
+
+
 def run_native(case, profile='dev'):
+    if case.get('kind') == 'job_tag':
+        case = job_tag_documents(case)
     binary, err = build(profile)
     if binary is None:
         return None, 'replay binary does not build: ' + err
@@ -589,6 +608,16 @@ def evaluate(case, native):
             if got != want:
                 return True, f'routing entry {i}: provider returns (duration, distance) = {got}, the documents say {want}'
         return False, 'every routing entry equals the supplied data'
+    if kind == 'job_tag':
+        acts = [a for s_ in native['solution']['tours'][0]['stops'] for a in s_['activities'] if a.get('jobId') == 'job1']
+        if not acts:
+            return None, 'the job is not in the written tour'
+        got = acts[0].get('jobTag')
+        want = 'ab'[case['used']]
+        if got != want:
+            return True, (f'the activity uses place {case["used"]} (tag {want!r}: location and window {case["places"][case["used"]]}) but the written solution reports tag {got!r} '
+                          f'(places: {case["places"]})')
+        return False, 'the reported tag is the tag of the used place'
     if kind == 'statistic_sum':
         for k_ in ('cost', 'distance', 'duration', 'driving', 'serving', 'waiting', 'break_time', 'commuting', 'parking'):
             want = case['a'][k_] + case['b'][k_]
